@@ -298,11 +298,13 @@ async def _run_app(
 
     runner = AppRunner(app, **kwargs)
 
-    await runner.setup()
-
     sites: list[BaseSite] = []
 
     try:
+        # inside the try: a start-up step that fails must still be followed by
+        # runner.cleanup(), which exits the cleanup contexts entered so far
+        await runner.setup()
+
         if host is not None:
             if isinstance(host, str):
                 sites.append(
